@@ -1,5 +1,7 @@
 import Exetera.Lemmas.TransformsLeaky
 import Exetera.Lemmas.TransformsFixed
+import Exetera.Lemmas.TransformsBoolKernel
+import Exetera.Lemmas.TransformsNum
 /-!
 # C06 — schema-typed conversion on import stores the value the text denotes, or flags it
 
@@ -122,6 +124,253 @@ theorem fixed_import (n : Nat) (chunks : List Chunk) (cellss : List (List Bytes)
     rw [fixedImport, fixed_truncates_to_n _ n _ hc]
     simp only
     rw [ih]; simp
+
+/-! ## bool columns -/
+
+/-- over the literal table regenerated from `numeric_bool_transform` (`Gen.boolLiterals`): for every byte string, the
+    kernel's `if actual_length == k: … val[j] in (…)` cascade accepts exactly the documented spellings
+    `1/y/t/true/on/yes ↦ 1`, `0/n/f/false/off/no ↦ 0`, in any mix of upper and lower case, and nothing else -/
+theorem bool_table_complete (val : Bytes) : boolLit val = boolValue val := boolLit_eq_boolValue val
+
+/-- `numeric_bool_transform` on any chunk: every cell is blank-trimmed (no read outside the cell), looked up, and the
+    validation mode decides between value, invalid value + false flag, and raising -/
+theorem bool_transform_spec (c : Chunk) (mode : Mode) (invalid : Bool) (cells : List Bytes) (h : Encodes c cells) :
+    boolTransform c mode invalid =
+      match numericColumn mode invalid (cells.map boolClass) with
+      | some r => .ok r
+      | none => .error (.other "Exception") := boolTransform_spec c mode invalid cells h
+
+theorem numericColumn_append {V} (mode : Mode) (inv : V) (a b : List (CellClass V)) :
+    numericColumn mode inv (a ++ b) =
+      match numericColumn mode inv a, numericColumn mode inv b with
+      | some x, some y => some (x.1 ++ y.1, x.2 ++ y.2)
+      | _, _ => none := by
+  induction a with
+  | nil => cases h : numericColumn mode inv b <;> simp [numericColumn, h]
+  | cons k ks ih =>
+    simp only [List.cons_append, numericColumn_cons, ih]
+    cases numericCell mode inv k <;> cases numericColumn mode inv ks <;> cases numericColumn mode inv b <;>
+      simp [consCell]
+
+/-- a `bool` column over any chunking: values and `_valid` flags of the whole column, or the import raises; the two
+    columns always have the same length -/
+theorem bool_import (mode : Mode) (invalid : Bool) (chunks : List Chunk) (cellss : List (List Bytes))
+    (h : EncodesAll chunks cellss) (st : List Bool × List Bool) :
+    boolImport mode invalid chunks st =
+      match numericColumn mode invalid (cellss.flatten.map boolClass) with
+      | some r => .ok (st.1 ++ r.1, st.2 ++ r.2)
+      | none => .error (.other "Exception") := by
+  induction h generalizing st with
+  | nil => simp [boolImport, numericColumn]
+  | @cons c cells cs cellss hc _ ih =>
+    rw [boolImport, bool_transform_spec c mode invalid cells hc]
+    simp only [List.flatten_cons, List.map_append, numericColumn_append]
+    cases h1 : numericColumn mode invalid (cells.map boolClass) with
+    | none => simp
+    | some r =>
+      simp only [ih]
+      cases numericColumn mode invalid (cellss.flatten.map boolClass) <;> simp
+
+/-! ## integer and float columns: the validation-mode table -/
+
+/-- the spec's table, stated outright: strict / allow_empty / relaxed × value / empty / garbage / out of range -/
+theorem validation_mode_cells {V} (invalid v : V) :
+    numericCell .strict invalid (.value v) = some (v, true) ∧ numericCell .strict invalid .empty = none ∧
+    numericCell .strict invalid .garbage = none ∧
+    numericCell .allowEmpty invalid (.value v) = some (v, true) ∧ numericCell .allowEmpty invalid .empty = some (invalid, false) ∧
+    numericCell .allowEmpty invalid .garbage = none ∧
+    numericCell .relaxed invalid (.value v) = some (v, true) ∧ numericCell .relaxed invalid .empty = some (invalid, false) ∧
+    numericCell .relaxed invalid .garbage = some (invalid, false) ∧
+    (∀ m, numericCell m invalid (CellClass.outOfRange : CellClass V) = none) := by
+  refine ⟨rfl, rfl, rfl, rfl, rfl, rfl, rfl, rfl, rfl, fun m => by cases m <;> rfl⟩
+
+/-- `transform_int` / `transform_float` for any text-to-number parser `parse` (Python `int()` / `float()` / numpy `astype`)
+    that rejects blank text, and an invalid value whose text parses to itself: the result is a value exactly when the table
+    says so, and then it is the table's column; `valids` is `None` in strict mode. -/
+theorem validation_mode_table {V} (parse : Bytes → Parsed V) (mode : Mode) (invalidText : Bytes) (invalid : V)
+    (hblank : ∀ t, npNonEmpty t = false → parse t = .bad) (hinv : parse invalidText = .val invalid) (cells : List Bytes) :
+    (transformNum parse mode invalidText invalid cells).toOption =
+      (numericColumn mode invalid ((cells.map rstripNul).map (classOf parse))).map
+        (fun r => (r.1, if mode = .strict then none else some r.2)) := by
+  cases mode with
+  | strict =>
+    have := strict_spec parse invalid hblank (cells.map rstripNul)
+    simp only [transformNum]
+    cases ha : astypeAll parse (cells.map rstripNul) with
+    | error e => rw [ha] at this; simp only [Except.toOption] at this ⊢; rw [Option.map_eq_none_iff.mp this.symm]; rfl
+    | ok vs =>
+      rw [ha] at this
+      cases hc : numericColumn Mode.strict invalid ((cells.map rstripNul).map (classOf parse)) with
+      | none => rw [hc] at this; simp [Except.toOption] at this
+      | some r => rw [hc] at this; simp [Except.toOption] at this ⊢; exact this
+  | allowEmpty =>
+    have := allowEmpty_spec parse invalidText invalid hinv (cells.map rstripNul)
+    simp only [transformNum]
+    rw [← this]
+    cases astypeAll parse ((cells.map rstripNul).map (fun t => if npNonEmpty t then t else invalidText)) <;>
+      simp [Except.toOption]
+  | relaxed =>
+    have := relaxed_spec parse invalid hblank (cells.map rstripNul)
+    simp only [transformNum]
+    rw [← this]
+    cases relaxedAll parse invalid (cells.map rstripNul) <;> simp [Except.toOption]
+
+/-- non-vacuity of the hypotheses for the executable integer parser the driver uses (`int()` on bytes, then the dtype's
+    range): blank text is rejected, and `str(invalid_value)` parses to `invalid_value` -/
+example : ∀ t, npNonEmpty t = false → parseIntRange (-128) 127 t = .bad := parseIntRange_blank (-128) 127
+example : parseIntRange (-128) 127 [45, 53] = .val (-5) := by decide
+example : (transformNum (parseIntRange (-128) 127) .allowEmpty [45, 53] (-5) [[49, 50], [32], [55]]).toOption
+    = some ([12, -5, 7], some [true, false, true]) := by decide
+example : (transformNum (parseIntRange (-128) 127) .relaxed [45, 53] (-5) [[49, 50], [120], [51, 48, 48]]).toOption = none := by
+  decide
+
+/-! ## companion columns stay row-aligned -/
+
+theorem numericColumn_lengths {V} (mode : Mode) (inv : V) (ks : List (CellClass V)) (r : List V × List Bool)
+    (h : numericColumn mode inv ks = some r) : r.1.length = ks.length ∧ r.2.length = ks.length := by
+  induction ks generalizing r with
+  | nil => simp [numericColumn] at h; subst h; simp
+  | cons k ks ih =>
+    rw [numericColumn_cons] at h
+    cases h1 : numericCell mode inv k with
+    | none => simp [h1, consCell] at h
+    | some vf =>
+      cases h2 : numericColumn mode inv ks with
+      | none => simp [h1, h2, consCell] at h
+      | some r' =>
+        simp only [h1, h2, consCell, Option.some.injEq] at h
+        subst h
+        have := ih r' h2
+        simp [this]
+
+/-- `_freetext` of a leaky categorical column: one offset per row plus the leading 0, the last offset is the number of
+    free-text bytes — for every chunking -/
+theorem companions_aligned_leaky (cats : List (Bytes × Int)) (hnd : (cats.map (·.1)).Nodup) (chunks : List Chunk)
+    (cellss : List (List Bytes)) (h : EncodesAll chunks cellss) :
+    ∃ st, leakyImport cats chunks LeakyState.init = .ok st ∧ st.data.length = cellss.flatten.length ∧
+      st.ftIndices.length = st.data.length + 1 ∧ st.ftIndices[st.data.length]? = some st.ftValues.length := by
+  have hl := leaky_freetext cats hnd chunks cellss h
+  generalize cellss.flatten = cells at hl
+  refine ⟨_, hl, ?_, ?_, ?_⟩
+  · simp only [leakyColumn, List.length_map]
+  · simp only [leakyColumn, offsets_length, List.length_map]
+  · simp only [leakyColumn, List.length_map]
+    have := offsets_getLast 0 (cells.map (fun c => (freeText cats c).length))
+    simp only [List.length_map, Nat.zero_add] at this
+    rw [this, flatten_length_eq_sum]
+    simp only [List.map_map, Function.comp_def]
+
+/-- `_valid` of a `bool` column has exactly the rows of the column, for every chunking and mode -/
+theorem companions_aligned_bool (mode : Mode) (invalid : Bool) (chunks : List Chunk) (cellss : List (List Bytes))
+    (h : EncodesAll chunks cellss) (r : List Bool × List Bool) (hok : boolImport mode invalid chunks ([], []) = .ok r) :
+    r.1.length = cellss.flatten.length ∧ r.2.length = r.1.length := by
+  rw [bool_import mode invalid chunks cellss h] at hok
+  generalize cellss.flatten = cells at hok ⊢
+  cases hc : numericColumn mode invalid (cells.map boolClass) with
+  | none => rw [hc] at hok; cases hok
+  | some r' =>
+    rw [hc] at hok
+    simp only [List.nil_append, Except.ok.injEq] at hok
+    have := numericColumn_lengths mode invalid _ r' hc
+    simp only [List.length_map] at this
+    subst hok
+    simp only [this, and_self]
+
+theorem astypeAll_length {V} (parse : Bytes → Parsed V) (ts : List Bytes) (vs : List V) (h : astypeAll parse ts = .ok vs) :
+    vs.length = ts.length := by
+  induction ts generalizing vs with
+  | nil => simp [astypeAll] at h; subst h; rfl
+  | cons t ts ih =>
+    rw [astypeAll] at h
+    cases hp : parse t with
+    | bad => simp [hp] at h
+    | overflow => simp [hp] at h
+    | val v =>
+      cases ha : astypeAll parse ts with
+      | error e => simp [hp, ha] at h
+      | ok vs' => simp [hp, ha] at h; subst h; simp [ih vs' ha]
+
+theorem relaxedAll_length {V} (parse : Bytes → Parsed V) (inv : V) (ts : List Bytes) (r : List V × List Bool)
+    (h : relaxedAll parse inv ts = .ok r) : r.1.length = ts.length ∧ r.2.length = ts.length := by
+  induction ts generalizing r with
+  | nil => simp [relaxedAll] at h; subst h; simp
+  | cons t ts ih =>
+    rw [relaxedAll] at h
+    cases hr : relaxedAll parse inv ts with
+    | error e => cases hp : parse t <;> simp [hp, hr] at h
+    | ok r' =>
+      have := ih r' hr
+      cases hp : parse t <;> simp [hp, hr] at h <;> (subst h; simp [this])
+
+/-- `_valid` of an integer / float column (modes with a flag column): as long as the column, for every chunking -/
+theorem companions_aligned_numeric {V} (parse : Bytes → Parsed V) (mode : Mode) (hmode : mode ≠ .strict)
+    (invalidText : Bytes) (invalid : V) (chunks : List Chunk) (st r : List V × List Bool)
+    (hst : st.2.length = st.1.length) (hok : numImport parse mode invalidText invalid chunks st = .ok r) :
+    r.2.length = r.1.length := by
+  induction chunks generalizing st with
+  | nil => simp [numImport] at hok; subst hok; exact hst
+  | cons c cs ih =>
+    rw [numImport] at hok
+    cases hc : cellsE c with
+    | error e => simp [hc] at hok
+    | ok cells =>
+      cases ht : transformNum parse mode invalidText invalid cells with
+      | error e => simp [hc, ht] at hok
+      | ok vf =>
+        simp only [hc, ht] at hok
+        refine ih _ ?_ hok
+        cases mode with
+        | strict => exact absurd rfl hmode
+        | allowEmpty =>
+          simp only [transformNum] at ht
+          cases ha : astypeAll parse ((cells.map rstripNul).map (fun t => if npNonEmpty t then t else invalidText)) with
+          | error e => rw [ha] at ht; cases ht
+          | ok vs =>
+            rw [ha] at ht
+            simp only [Except.ok.injEq] at ht
+            subst ht
+            have := astypeAll_length parse _ vs ha
+            simp [this, hst]
+        | relaxed =>
+          simp only [transformNum] at ht
+          cases ha : relaxedAll parse invalid (cells.map rstripNul) with
+          | error e => rw [ha] at ht; cases ht
+          | ok r' =>
+            rw [ha] at ht
+            simp only [Except.ok.injEq] at ht
+            subst ht
+            have := relaxedAll_length parse invalid _ r' ha
+            simp [this, hst]
+
+theorem cellsMapE_length {α} (f : Bytes → Except Err α) (cells : List Bytes) (rs : List α) (h : cellsMapE f cells = .ok rs) :
+    rs.length = cells.length := by
+  induction cells generalizing rs with
+  | nil => simp [cellsMapE] at h; subst h; rfl
+  | cons c cs ih =>
+    rw [cellsMapE] at h
+    cases hf : f c with
+    | error e => simp [hf] at h
+    | ok a =>
+      cases hr : cellsMapE f cs with
+      | error e => simp [hf, hr] at h
+      | ok as => simp [hf, hr] at h; subst h; simp [ih as hr]
+
+/-- `_day` and `_set` of a datetime / date column: as long as the column, for every chunking -/
+theorem companions_aligned_time (f : Bytes → Except Err (Int × Bytes × Bool)) (chunks : List Chunk)
+    (st r : List Int × List Bytes × List Bool) (hst : st.2.1.length = st.1.length ∧ st.2.2.length = st.1.length)
+    (hok : timeImport f chunks st = .ok r) : r.2.1.length = r.1.length ∧ r.2.2.length = r.1.length := by
+  induction chunks generalizing st with
+  | nil => simp [timeImport] at hok; subst hok; exact hst
+  | cons c cs ih =>
+    rw [timeImport] at hok
+    cases hc : cellsE c with
+    | error e => simp [hc] at hok
+    | ok cells =>
+      cases hm : cellsMapE f cells with
+      | error e => simp [hc, hm] at hok
+      | ok rs =>
+        simp only [hc, hm] at hok
+        exact ih _ (by simp [hst]) hok
 
 /-! ## non-vacuity -/
 
